@@ -279,6 +279,11 @@ form('opt-shadowed-undefined', { ops: ['trim'], kf: 'D21', sloppy: true }, F => 
 // the bare function does not exist: the ReferenceError comes before the arguments are evaluated (D35 family: the callee problem shows after the arguments)
 form('bare-allowed-undeclared-callee', { ops: ['aloneMethod'], nodemand: true, kf: 'D35' }, F => `aloneMethod(${F.f()})`)
 form('bare-allowed', { ops: ['aloneMethod'], nodemand: true }, F => { F.needAlone = true; return `aloneMethod(${F.s()}, ${F.f()})` })
+// a bare allowed call whose LATER argument is itself instrumented and needs temporaries, after an earlier non-literal argument
+form('bare-allowed-plus-arg-after-call', { ops: ['aloneMethod', '+'], nodemand: true }, F => { F.needAlone = true; return `aloneMethod(${F.f()}, ${F.s()} + ${F.f()})` })
+form('bare-allowed-method-arg-after-ident', { ops: ['aloneMethod', 'trim'], nodemand: true }, F => { F.needAlone = true; return `aloneMethod(${F.loc()}, ${F.f()}.trim(), ${F.s()})` })
+form('bare-allowed-tpl-arg-after-member', { ops: ['aloneMethod', 'tpl'], nodemand: true }, F => { F.needAlone = true; return `aloneMethod(${F.s()}, \`\${${F.s()}}-\${${F.f()}}\`)` })
+form('bare-allowed-nested-bare-args', { ops: ['aloneMethod', '+'], nodemand: true }, F => { F.needAlone = true; return `aloneMethod(aloneMethod(${F.f()}, ${F.s()} + ${F.f()}), ${F.s()} + ${F.f()})` })
 form('bare-not-allowed', { ops: [], instr: false }, F => { F.needTrimFn = true; return `trim(${F.s()})` })
 
 // ---- placements ------------------------------------------------------------------------------------
@@ -382,6 +387,9 @@ place('class-static-block', {}, E => `class K { static { w.out(${E}) } }`)
 place('class-field-init', { kfShape: 'D7' }, E => `class K { p = ${E} } w.out(new K().p);`)
 place('class-static-field-init', { kfShape: 'D7' }, E => `class K { static p = ${E} } w.out(K.p);`)
 place('fn-default-param', { kfShape: 'D7' }, E => `function fn(x = ${E}) { return x } w.out(fn());`)
+// a later default calls, in the middle of its own operation, a function created by an earlier default whose own default is instrumented
+place('fn-later-default-calls-fn-of-earlier-default', { kfShape: 'D7' }, E => `function h(a1 = w.u1 || function (v, q = w.s7 + w.f8()) { return w.id1(v, q) }, a2 = w.f9() + a1(${E})) { return a2 } w.out(h());`)
+place('fn-later-default-calls-arrow-of-earlier-default', { kfShape: 'D7' }, E => `function h(a1 = [(v, q) => w.id1(v, q), function (v, q = \`\${w.s7}:\${w.f8()}\`) { return w.id2(v, q) }], a2 = w.f9() + a1[1](${E}) + a1[0](w.s3)) { return a2 } w.out(h());`)
 place('method-default-param', { kfShape: 'D7' }, E => `const ob = { m(x = ${E}) { return x } }; w.out(ob.m());`)
 place('arrow-default-param', { thisOk: true, excl: 'arrow-default' }, E => `const af = (x = ${E}) => x; w.out(af());`)
 place('arrow-expr-body', { thisOk: true }, E => `const af = () => ${E}; w.out(af());`)
@@ -412,7 +420,7 @@ function build (pl, fm, opts = {}) {
   if (pl.sloppy || fm.sloppy) opts = Object.assign({}, opts, { module: false })
   const body = pl.p(E)
   const helpers = []
-  if (F.needAlone) helpers.push('function aloneMethod(x, y) { return w.id9(x) }')
+  if (F.needAlone) helpers.push('function aloneMethod(x, y, z) { return w.id9(x, y, z) }') // every argument reaches the world
   if (F.needTrimFn) helpers.push('function trim(x) { return w.id8(x) }')
   const pre = (F.locals.length ? 'let ' + F.locals.join(', ') + ';' : '')
   let code
